@@ -94,6 +94,28 @@ def check_field_row(core, parser, version, row, level, rec):
         rec.violation(cause, case, {'encoded': er[:200], 'expected': _expect_text(seg, row.num or 0, text)[:200]},
                       row=rowkey)
         return
+    # hostile history: the populated position is re-assigned by name with an element the segment must refuse (another
+    # version); the caller catches the refusal and the value is still encoded at its index
+    other = '2.4' if version != '2.4' else '2.5'
+    try:
+        intruder = core.Field(row.name, version=other)
+    except Exception:
+        intruder = None
+        rec.count('refused_reassignment_not_buildable')
+    if intruder is not None:
+        try:
+            setattr(s, row.name.lower(), intruder)
+            rec.count('reassignment_not_refused')
+        except Exception:
+            rec.count('refused_reassignments')
+            try:
+                er_after = s.to_er7()
+            except Exception as e:
+                er_after = 'EXC:%r' % e
+            if er_after != er:
+                rec.violation('refused-reassignment-moved-or-lost-the-value', case, {'before': er[:200],
+                                                                                    'after': er_after[:200]}, row=rowkey)
+                return
     # parse direction
     try:
         s2 = parser.parse_segment(er, version=version, validation_level=level)
@@ -221,7 +243,18 @@ def check_component_row(core, parser, version, dt, crow, host, rec):
         rec.count('component_rows_without_host_field')
     # sub-components
     if crow.kind == 'sequence' and not tables.is_base(version, crow.datatype):
-        for srow in tables.components(version, crow.datatype):
+        srows = list(tables.components(version, crow.datatype))
+        # hostile history: another, still empty, object of this component name had its datatype overridden (TOLERANT
+        # permits it); the positions the version defines for the name are those of every other object all the same
+        others = [d for d in tables.complex_datatypes(version) if d != crow.datatype]
+        if others and crow.ok:
+            try:
+                scratch = core.Component(crow.name, version=version)
+                scratch.datatype = others[(crow.num * 7) % len(others)]
+                rec.count('datatype_overrides_on_scratch_components')
+            except Exception:
+                rec.count('datatype_overrides_refused')
+        for srow in srows:
             check_subcomponent_row(core, parser, version, dt, crow, srow, host, rec)
 
 
@@ -408,6 +441,8 @@ def floors(tier, m):
         out.append('not every version was swept')
     if c.get('field_positions_tokenized', 0) < 20000 or c.get('component_positions_tokenized', 0) < 4000:
         out.append('tokenizer decided too few positions: %s' % c)
+    if c.get('refused_reassignments', 0) < 10000 or c.get('datatype_overrides_on_scratch_components', 0) < 300:
+        out.append('hostile histories (refused re-assignment, datatype override on another object) too rare: %s' % c)
     if c.get('open_ended_positions_checked', 0) < 1000:
         out.append('open-ended segments: too few positions checked')
     return out
